@@ -2,6 +2,132 @@ import vtlib
 from checks import engine as en
 
 
+BIG_SHAPES = {
+    # dsl -> why: serialization budgets beyond 255 bits (the counts are Long; REGION_COUNT <= 255 is the identifier limit)
+    "quick": ["O(%s)" % ",".join(["C(l,l,l)"] * 52)],
+    "thorough": ["O(%s)" % ",".join(["C(l,l,l)"] * 52), "C(%s)" % ",".join(["C(l,l,l)"] * 86),
+                 "C(%s)" % ",".join(["R(l,O(C(l,l),C(l,l)),l)"] * 30)],
+}
+
+
+def big_source(dsl):
+    """a machine whose serialization budget exceeds 255 bits: for every ordered pair of configurations out of
+    {initial, one region moved to each of its leaves (every leaf of the machine), every region on its last leaf,
+    every region on its middle leaf} x {initial, all-last, all-middle, not activated}: save from a fresh instance brought
+    there, load into a fresh instance brought to the destination; buffers live in exactly sized heap blocks between
+    canaries (and under the address sanitizer in the sanitizer variant)."""
+    st = en.st
+    root = st.parse(dsl)
+    ns = st.nodes(root)
+    cnt = st.counts(root)
+    named = [n for n in ns if not (n.is_region and n.headless)]
+    leaves = [n for n in ns if not n.is_region and n.parent is not None]
+    out = ["#define HFSM2_ENABLE_SERIALIZATION", "#include <hfsm2/machine.hpp>", "#include <cstdio>", "#include <cstring>",
+           "#include <cstdlib>", "#include <vector>", "#include <string>",
+           "using M = hfsm2::MachineT<hfsm2::Config::ManualActivation>;"]
+    out += ["struct S%d;" % n.id for n in named]
+    out.append("using FSM = %s;" % st.type_expr(root, True))
+    out += ["struct S%d : FSM::State {};" % n.id for n in named]
+    last = [n.children[-1] for n in ns if n.is_compo and not n.children[-1].is_region]
+    mid = [n.children[len(n.children) // 2] for n in ns if n.is_compo and not n.children[len(n.children) // 2].is_region]
+    out.append("static const int LEAVES[] = {%s};" % ",".join(str(n.id) for n in leaves))
+    out.append("static const int LAST[] = {%s};" % ",".join(str(n.id) for n in last))
+    out.append("static const int MID[] = {%s};" % ",".join(str(n.id) for n in mid))
+    out.append("static const int EXPECT_BITS = %d, STATES = %d;" % (cnt["serial_bits"], cnt["states"]))
+    out.append('static const char* DSL = "%s";' % (dsl if len(dsl) < 120 else dsl[:117] + "..."))
+    out.append(r"""
+using Buf = FSM::Instance::SerialBuffer;
+extern "C" void hfsm2_verif_break(const char* f, int l) noexcept { fprintf(stderr, "library assertion %s:%d\n", f, l); abort(); }
+struct Boxed {            // the buffer in an exactly sized heap block, canaries on both sides
+	unsigned char* raw; Buf* buf;
+	Boxed() { raw = (unsigned char*) malloc(sizeof(Buf) + 32); memset(raw, 0xA5, sizeof(Buf) + 32); buf = new (raw + 16) Buf(); }
+	~Boxed() { buf->~Buf(); free(raw); }
+	bool intact() const { for (int i = 0; i < 16; ++i) if (raw[i] != 0xA5 || raw[16 + sizeof(Buf) + i] != 0xA5) return false; return true; }
+};
+// configuration index: 0 initial, 1 all-last, 2 all-middle, 3 not activated, 4+k: leaf k requested from the initial configuration
+static void bring(FSM::Instance& f, int c) {
+	if (c == 3) return;
+	f.enter();
+	if (c == 1) { for (int s : LAST) f.changeTo((hfsm2::StateID) s); f.update(); }
+	else if (c == 2) { for (int s : MID) f.changeTo((hfsm2::StateID) s); f.update(); }
+	else if (c >= 4) { f.immediateChangeTo((hfsm2::StateID) LEAVES[c - 4]); }
+}
+static std::string config(const FSM::Instance& f) {
+	std::string s;
+	for (int i = 0; i < STATES; ++i) s += f.isActive((hfsm2::StateID) i) ? 'A' : (f.isResumable((hfsm2::StateID) i) ? 'r' : '.');
+	return s;
+}
+int main() {
+	long pairs = 0, bad = 0; int distinct = 0;
+	const int NL = sizeof(LEAVES) / sizeof(LEAVES[0]);
+	auto fail = [&](const char* fp, int a, int b, const std::string& msg) {
+		if (bad++ < 5) printf("{\"type\":\"violation\",\"property\":\"C08\",\"fingerprint\":\"big/%s\",\"message\":\"[%s] source config %d, destination config %d: %s\",\"replay\":{\"harness\":\"c08_big\",\"dsl\":\"%s\",\"src\":%d,\"dst\":%d}}\n", fp, DSL, a, b, msg.c_str(), DSL, a, b); fflush(stdout);
+	};
+	if ((int) Buf::BIT_CAPACITY != EXPECT_BITS || (int) FSM::SERIAL_BITS != EXPECT_BITS || sizeof(Buf) * 8 < (size_t) EXPECT_BITS)
+		fail("bit-capacity", -1, -1, "SerialBuffer::BIT_CAPACITY " + std::to_string((int) Buf::BIT_CAPACITY) + " / FSM::SERIAL_BITS " + std::to_string((int) FSM::SERIAL_BITS) + " / sizeof " + std::to_string(sizeof(Buf)) + " bytes, expected " + std::to_string(EXPECT_BITS) + " bits from the structure");
+	std::string prev;
+	for (int a = 0; a < 4 + NL; ++a) {
+		FSM::Instance* src = new FSM::Instance(); bring(*src, a);
+		const std::string want = config(*src);
+		if (want != prev) { ++distinct; prev = want; }
+		Boxed saved; src->save(*saved.buf);
+		if (!saved.intact()) fail("save-outside-buffer", a, -1, "save() wrote outside the buffer");
+		if (config(*src) != want) fail("save-changes-source", a, -1, "save() changed the source");
+		for (int b = 0; b < 4; ++b) {
+			FSM::Instance* dst = new FSM::Instance(); bring(*dst, b);
+			dst->load(*saved.buf);
+			++pairs;
+			const std::string got = config(*dst);
+			if (got != want) { size_t i = 0; while (i < got.size() && got[i] == want[i]) ++i; fail("config-differs", a, b, "first difference at state " + std::to_string(i) + ": saved '" + want[i] + "' loaded '" + got[i] + "'"); }
+			Boxed again; dst->save(*again.buf);
+			if (!again.intact()) fail("save-outside-buffer", a, b, "re-save wrote outside the buffer");
+			if (memcmp(&saved.buf->data(), &again.buf->data(), sizeof(Buf::Data)) != 0) fail("resave-differs", a, b, "re-saved buffer is not bit-identical");
+			delete dst;
+		}
+		delete src;
+	}
+	printf("{\"type\":\"summary\",\"states\":%d,\"transitions\":%ld,\"compared\":%ld,\"violations\":%ld,\"serial_bits\":%d,\"machine_states\":%d}\n", distinct, pairs, pairs, bad, EXPECT_BITS, STATES);
+	return 0;
+}
+""")
+    return "\n".join(out)
+
+
+def run_big(chk, tier):
+    specs, labels = [], []
+    for i, dsl in enumerate(BIG_SHAPES[tier]):
+        src = big_source(dsl)
+        for vname, kw in (("gcc", dict(cxx="g++", std="c++14", opt="-O0")),
+                          ("clang-asan", dict(cxx="clang++", std="c++14", opt="-O0", san=True))):
+            specs.append(dict(src_text=src, name="c08_big%d" % i, allow_fail=True, **kw))
+            labels.append("big%d/%s" % (i, vname))
+    exes = vtlib.build_many(specs)
+    cmds, lab2 = [], []
+    for e, lb in zip(exes, labels):
+        if e is None:
+            chk.engine_error("c08 big machine %s did not compile" % lb)
+        else:
+            cmds.append([e]); lab2.append(lb)
+    tot = dict(states=0, pairs=0)
+    per = {}
+    for lb, (recs, rc, err) in zip(lab2, vtlib.run_many(cmds, timeout=1200)):
+        summ = [r for r in recs if r.get("type") == "summary"]
+        for r in recs:
+            if r.get("type") == "violation":
+                chk.violation(r["fingerprint"], "[%s] %s" % (lb, r["message"]), dict(r.get("replay", {}), variant=lb))
+        if rc != 0 or not summ:
+            if rc == -999:
+                chk.engine_error("c08 big %s: timeout" % lb)
+            else:
+                chk.violation("big/crash", "[%s] big-machine save/load harness stopped (rc=%s): %s" % (lb, rc, "\n".join(err.splitlines()[:8])),
+                              {"harness": "c08_big", "variant": lb})
+            continue
+        per[lb] = {k: v for k, v in summ[0].items() if k != "type"}
+        tot["states"] += summ[0]["states"]
+        tot["pairs"] += summ[0]["transitions"]
+    return tot, per
+
+
 def run(tier):
     chk = vtlib.Check("C08", tier, "model_checking")
     thorough = tier == "thorough"
@@ -11,6 +137,11 @@ def run(tier):
     args = ["--tier", tier, "--dev", "0", "--batch", "1", "--deadline", str(1500 if thorough else 150)]
     res = en.run_all(chk, "C08", progs, args, timeout=(2400 if thorough else 400))
     en.aggregate(chk, res, "C08")
+    tot, per = run_big(chk, tier)
+    chk.coverage["big_machines"] = per
+    chk.coverage["states"] += tot["states"]
+    chk.coverage["transitions"] += tot["pairs"]
+    chk.coverage["traces_validated_against_impl"] += tot["pairs"]
     chk.coverage["explanation"] = (
         "The reachable quiescent states of each serializable program are closed by BFS (incl. 'never entered' and "
         "'exited' under manual activation); then for EVERY ordered pair (source, destination) of them (capped at 500 "
@@ -19,7 +150,11 @@ def run(tier):
         "loaded active and resumable configuration must equal the saved one, exit()/enter() must be delivered for every "
         "state that stops/starts being active, the loading instance's lifecycle must stay balanced to destruction, "
         "re-saving must give a bit-identical buffer, and BIT_CAPACITY must equal the value computed from the structure. "
-        "'transitions' counts the (source, destination) load edges; sanitizer builds catch out-of-buffer accesses.")
+        "'transitions' counts the (source, destination) load edges; sanitizer builds catch out-of-buffer accesses. "
+        "big_machines: machines whose serialization budget exceeds 255 bits (52..86 regions): every configuration out of "
+        "{initial, all regions on their last / middle leaf, not activated, each single leaf requested} is saved into an "
+        "exactly sized heap block between canaries and loaded into {initial, all-last, all-middle, not activated}; same "
+        "oracles (configuration, bit-identical re-save, nothing written outside the block, BIT_CAPACITY from the structure).")
     chk.assumptions = ["width-1 composite regions do not compile with serialization and are excluded (compile-time limit of the library)",
                        "plans, history and pending marks are not part of the serialized state and are not compared"]
     return chk
